@@ -207,6 +207,12 @@ def _src(B, o, depth):
             return _src(B, B.origin(t['args'][0]), depth + 1)
         if name.endswith('OwnedTerm::as_integer'):
             return ('as_integer', _src(B, B.origin(t['args'][0]), depth + 1))
+        # a helper of the crate that returns one element of the sequence it is given: helper(elements, k) == elements[k]
+        acc = _element_accessor(name)
+        if acc is not None and len(t['args']) > max(acc):
+            c = fold(B.origin(t['args'][acc[1]]))
+            if c is not None:
+                return ('elem', c, _base_name(B, B.origin(t['args'][acc[0]])))
         return ('call', name)
     if k in ('payload', 'try'):
         # `x?` / Some(..)/Ok(..) payload of x
@@ -220,6 +226,44 @@ def _src(B, o, depth):
     if k == 'const':
         return ('const', o[1])
     return ('other', k)
+
+
+_PROGRAM = None
+
+
+def _element_accessor(name):
+    """(index of the sequence parameter, index of the position parameter) if function `name` of this repository returns
+    (a take / clone of) sequence[position] and nothing else"""
+    if _PROGRAM is None or not name.startswith('edp_client::'):
+        return None
+    HB = _PROGRAM.B(name)
+    if HB is None or HB.b['argc'] < 2:
+        return None
+    # built-in slice indexing: a place (*seq)[idx] with seq and idx both parameters
+    n_calls = sum(1 for _ in HB.calls())
+    for bb, j, st in HB.stmts():
+        if st['k'] != '=' or st['rv']['k'] not in ('ref', 'use'):
+            continue
+        pl = st['rv']['pl'] if st['rv']['k'] == 'ref' else (st['rv']['op'].get('pl') if st['rv']['op']['k'] in ('cp', 'mv') else None)
+        if not pl:
+            continue
+        idxs = [e['idx'] for e in (pl.get('p') or []) if isinstance(e, dict) and 'idx' in e]
+        if len(idxs) == 1 and 1 <= pl['l'] <= HB.b['argc'] and n_calls <= 3:
+            io = HB.origin({'k': 'cp', 'pl': {'l': idxs[0]}})
+            if io[0] == 'arg' and not io[2]:
+                d = HB.derived_locals([st['pl']['l']]) | {st['pl']['l']}
+                if 0 in d:
+                    return (pl['l'] - 1, io[1] - 1)
+    for bb, t in HB.calls():
+        g = callee_of(t)[0] or ''
+        if 'Index' in g and '::index' in g and len(t['args']) > 1:
+            base, idx = HB.origin(t['args'][0]), HB.origin(t['args'][1])
+            if base[0] == 'arg' and idx[0] == 'arg' and not idx[2]:
+                # the returned value derives from this element
+                d = HB.derived_locals([t['dst']['l']]) | {t['dst']['l']}
+                if 0 in d and sum(1 for _ in HB.calls() if True) <= 4:
+                    return (base[1] - 1, idx[1] - 1)
+    return None
 
 
 def _src_try(B, o, depth):
@@ -246,6 +290,8 @@ def unwrap_try(B, o):
 
 
 def run(ctx):
+    global _PROGRAM
+    _PROGRAM = ctx.P
     spec = load_spec()
     by_tag = {m['tag']: m for m in spec['messages']}
     by_name = {camel_from_upper(m['name']): m for m in spec['messages']}
